@@ -9,6 +9,7 @@ current address / multicast level / multicast setting, EN_AA=0x3E, DYNPD=0x3F, E
 from vlib.harness.runner import Result, Part, exc_signature
 from vlib.ref import netaddr
 from vlib.sim.core import MS, SimHorizon
+from vlib.checks import c03_config
 from vlib.checks.netutil import Net
 
 PROPERTY = "C07"
@@ -143,6 +144,28 @@ def run_case(case):
                 fn = lambda node: node.write(op[2], op[3], bytes(op[4]))  # noqa: E731
             elif k == "mesh_check" and mesh:
                 fn = lambda node: node.check_connection(2, bool(op[2]))  # noqa: E731
+            elif k == "cfg":
+                # radio-level calls that every network object inherits and that are not meant to change the role: a
+                # power cycle, re-asserting channel / data rate, PA level, a details report, a fragmentation toggle
+                which = op[2] % 7
+
+                def fn(node, which=which):
+                    if which == 0:
+                        node.power = False
+                        node.power = True
+                    elif which == 1:
+                        node.channel = node.channel
+                    elif which == 2:
+                        node.pa_level = -12
+                    elif which == 3:
+                        c03_config.print_report(node, ["details", True])
+                    elif which == 4:
+                        node.fragmentation = False
+                        node.fragmentation = True
+                    elif which == 5:
+                        node.data_rate = node.data_rate
+                    else:
+                        node.power = True
             elif k == "idle":
                 net.sim.advance(op[2] * MS)
                 continue
@@ -217,6 +240,7 @@ def _strategy():
             st.tuples(st.just("addr"), idx, st.sampled_from([0o1, 0o2, 0o15, 0o314, 0o2345, 0o6, 0o70, 0o4444, 0o100])),
             st.tuples(st.just("mclevel"), idx, st.integers(-1, 5)),
             st.tuples(st.just("idle"), idx, st.sampled_from([1, 10])),
+            st.tuples(st.just("cfg"), idx, st.integers(0, 6)),
         ).map(list)
         return {"family": "net", "nodes": nodes, "loss": draw(loss), "ops": draw(st.lists(op, min_size=1, max_size=12))}
 
@@ -235,6 +259,7 @@ def _strategy():
             st.tuples(st.just("mesh_check"), idx, st.booleans()), st.tuples(st.just("mc"), idx, st.sampled_from([None, 0, 1, 2]), st.sampled_from([0, 5])),
             st.tuples(st.just("mclevel"), idx, st.integers(0, 4)),
             st.tuples(st.just("mesh_lookup_addr"), st.just(0), anyid), st.tuples(st.just("mesh_send"), st.just(0), anyid, typ, ln),
+            st.tuples(st.just("cfg"), st.integers(0, len(nodes) - 1), st.integers(0, 6)),
         ).map(list)
         ops = [["mesh_renew", k] for k in range(1, len(nodes)) if draw(st.booleans())] + draw(st.lists(op, min_size=1, max_size=8))
         return {"family": "mesh", "nodes": nodes, "loss": draw(loss), "ops": ops}
